@@ -545,6 +545,15 @@ func c07GenPW(rng *rand.Rand) (knots []c07Knot, step float64) {
 	return
 }
 
+func c07NearZero(knots []c07Knot) bool {
+	for _, k := range knots {
+		if math.Abs(float64(k.X)) < math.Ldexp(1, -60) {
+			return true
+		}
+	}
+	return false
+}
+
 func c07GenBounds(rng *rand.Rand, knots []c07Knot, step float64) (bl, bh float64) {
 	x0, xn := float64(knots[0].X), float64(knots[len(knots)-1].X)
 	switch rng.Intn(6) {
@@ -890,7 +899,12 @@ func c07Gen(tier string, rng *rand.Rand, emit func(interface{})) {
 		nks, draws = 40, 1000000
 	}
 	for i := 0; i < nks; i++ {
+		// with xtol = 0 a quantile at or next to 0 costs ~1100 cdf evaluations (the bisection goes down to the
+		// subnormals): the long runs use distributions with no break point within 2^-60 of 0; op 8 below has them
 		knots, step := c07GenPW(rng)
+		for tries := 0; tries < 100 && c07NearZero(knots); tries++ {
+			knots, step = c07GenPW(rng)
+		}
 		bl, bh := c07GenBounds(rng, knots, step)
 		emit(c07Case{Op: 5, Knots: knots, Bl: F64(bl), Bh: F64(bh), N: draws, Seeds: []int64{rng.Int63()}})
 	}
@@ -913,5 +927,5 @@ func c07Gen(tier string, rng *rand.Rand, emit func(interface{})) {
 }
 
 func init() {
-	register(&Prop{ID: "C07", Num: 7, Gen: c07Gen, Run: c07Run, Timeout: 10 * time.Second})
+	register(&Prop{ID: "C07", Num: 7, Gen: c07Gen, Run: c07Run, Timeout: 30 * time.Second})
 }
